@@ -56,6 +56,8 @@ CONFIGS = {
     "legacy_serializer_pair": {"serializer": ser7, "deserializer": dec7},
     "legacy_deserializer_only": {"deserializer": dec7},
     "timeouts": {"connect_timeout": 3, "timeout": 7},
+    "timeout_only": {"timeout": 7},
+    "connect_timeout_only": {"connect_timeout": 3},
     "no_delay": {"no_delay": True},
     "prefix+noreply_off+utf8": {"key_prefix": "q/", "default_noreply": False, "encoding": "utf8"},
     "tls": {"tls_context": "<per-net TLS context>"},
@@ -113,7 +115,8 @@ def build(stack, net, cfg):
 
 _SERDE_FAMILY = ("serde", "pickle", "legacy_serializer_pair", "legacy_deserializer_only")
 _SINGLES = ("prefix", "default_noreply_off", "utf8", "unicode_keys", "serde", "pickle", "legacy_serializer_pair",
-            "legacy_deserializer_only", "timeouts", "no_delay", "tls", "keepalive")
+            "legacy_deserializer_only", "timeouts", "timeout_only", "connect_timeout_only", "no_delay", "tls", "keepalive")
+_TIMEOUT_FAMILY = ("timeouts", "timeout_only", "connect_timeout_only")
 
 
 def all_configs(tier):
@@ -121,7 +124,7 @@ def all_configs(tier):
     out = dict(CONFIGS)
     if tier == "thorough":
         for a, b in itertools.combinations(_SINGLES, 2):
-            if a in _SERDE_FAMILY and b in _SERDE_FAMILY:
+            if (a in _SERDE_FAMILY and b in _SERDE_FAMILY) or (a in _TIMEOUT_FAMILY and b in _TIMEOUT_FAMILY):
                 continue
             out[f"{a}+{b}"] = {**CONFIGS[a], **CONFIGS[b]}
     return out
